@@ -26,15 +26,17 @@ Local Open Scope Z_scope.
 
 (** executing the micro-steps of an operation one by one gives the state the
     big-step operation gives (for the mailbox / link tables: Model/Ops.v's
-    [step], the model of C03).  [op_plain] only excludes RENAME to a name with
-    an empty hierarchy component ("/x", "a//b"). *)
+    [step], the model of C03; CREATE and RENAME: [op_create7] / [op_rename7],
+    the code after raven 0c3ee23 .. 59c8bd8, which Model/Ops.v does not follow
+    yet).  Unconditional for every operation since RENAME no longer aborts on
+    an empty parent component. *)
 Theorem c07_micro_refines : forall d o,
-  WF d -> op_plain o = true -> run_steps d (micro d o) = fst (big d o).
+  WF d -> run_steps d (micro d o) = fst (big d o).
 Proof. exact refines. Qed.
 Print Assumptions c07_micro_refines.
 
 Theorem c07_workload_refines : forall h d,
-  WF d -> forallb op_plain h = true -> run_all d h = big_all d h.
+  WF d -> run_all d h = big_all d h.
 Proof. exact run_all_big. Qed.
 Print Assumptions c07_workload_refines.
 
@@ -183,9 +185,8 @@ Proof. vm_compute. repeat split. Qed.
     login is OK, INBOX is there, a delivery is accepted and all listed messages
     are complete *)
 Example c07_mixed_workload :
-  length (all_points W_MIXED) = 70%nat /\
-  forallb (fun k => recovers_b (crash_at absent W_MIXED k) 200 W_SHAPE) (all_points W_MIXED) = true /\
-  forallb op_plain W_MIXED = true.
+  length (all_points W_MIXED) = 69%nat /\
+  forallb (fun k => recovers_b (crash_at absent W_MIXED k) 200 W_SHAPE) (all_points W_MIXED) = true.
 Proof. vm_compute. repeat split. Qed.
 
 (** the property's spec on an OBSERVED store ([crash_spec_b], Spec/Crash.v: every
